@@ -6,7 +6,7 @@ export CARGO_NET_OFFLINE=true
 cd $wt || exit 2
 git checkout -q -- . ; rm -f tests/demo_*.rs
 feat=""; grep -q "serde" $o/demo.rs && feat="--features serde"
-grep -q -- "--release" $o/meta.json 2>/dev/null && feat="$feat --release"
+python3 -c "import json,sys; sys.exit(0 if '--release' in json.load(open('$o/meta.json')).get('demo_cmd','') else 1)" 2>/dev/null && feat="$feat --release"
 cp $o/demo.rs tests/demo_$x.rs
 # 1. demo passes on the unchanged tree
 cargo test --offline $feat --test demo_$x >/tmp/vs_$id$x.base 2>&1; base=$?
